@@ -19,6 +19,9 @@
 #include <gatery/export/vhdl/NamespaceScope.h>
 #include <gatery/export/vhdl/Process.h>
 #include <gatery/utils/StableContainers.h>
+#include <gatery/scl/synthesisTools/GHDL.h>
+#include <gatery/scl/synthesisTools/IntelQuartus.h>
+#include <gatery/scl/synthesisTools/XilinxVivado.h>
 #include <gatery/hlim/Circuit.h>
 #include <gatery/hlim/Clock.h>
 #include <gatery/hlim/NodeGroup.h>
@@ -45,11 +48,12 @@ struct CaseSpec {
 	bool perPartition = false, tb = false, undef = false;
 	uint64_t stimSeed = 0, fsmSeed = 0;
 	size_t ncycles = 8, fsmStates = 3;
+	unsigned tool = 0;           // 0 default synthesis tool, 1 GHDL, 2 IntelQuartus, 3 XilinxVivado (project / file-list writers)
 
 	std::string cfg() const {
 		std::ostringstream o;
 		o << "family=" << family << " export=" << (perPartition ? "file_per_partition" : "single_file") << " tb=" << tb << " areas=" << deco.areas
-		  << " names=" << deco.names << " partSeed=" << partSeed << " ncycles=" << ncycles;
+		  << " names=" << deco.names << " tool=" << tool << " partSeed=" << partSeed << " ncycles=" << ncycles;
 		if (family == "fsm") o << " fsmStates=" << fsmStates << " fsmSeed=" << fsmSeed;
 		return o.str();
 	}
@@ -66,6 +70,7 @@ static CaseSpec genCase(uint64_t seed, uint64_t k, uint64_t nsteps) {
 	s.tb = rng.chance(1, 2);
 	s.perPartition = rng.chance(1, 2);
 	s.partSeed = rng.next();
+	s.tool = (unsigned) rng.below(4);
 	if (s.family == "fsm") {
 		s.fsmSeed = rng.next();
 		s.fsmStates = 3 + rng.below(4);
@@ -184,14 +189,16 @@ static void runVariant(const CaseSpec &s, const fs::path &dir, unsigned shuffles
 		vh::Stimulus st = vh::genStimulus(srng, b.inWidths, s.ncycles, s.undef);
 		writeTrace(dir / "trace_pre.txt", vh::simulate(design.getCircuit(), b, st));
 		for (unsigned i = 0; i < shuffles; i++) design.getCircuit().shuffleNodes();
-		design.postprocess();
-		status << "nodes " << design.getCircuit().getNodes().size() << " partitions " << marked << '\n';
-		if (shuffles) { // node order permuted: emitted text may be reordered, traces may not change
-			writeTrace(dir / "trace_post.txt", vh::simulate(design.getCircuit(), b, st));
-			status << "ok\n";
-			return;
+		if (getenv("C10_PASSES")) { // debugging aid: first output row after every post-processing pass
+			static const vh::Built *gb; static const vh::Stimulus *gs; gb = &b; gs = &st;
+			hlim::verif_passBoundary = +[](const char *pass, hlim::Circuit &c) { try { auto t = vh::simulate(c, *gb, *gs); std::cerr << pass << ":"; for (auto &v : t[0]) std::cerr << ' ' << v; std::cerr << '\n'; } catch (...) { std::cerr << pass << ": nosim\n"; } };
 		}
-		fs::path ex = dir / "export";
+		design.postprocess();
+		hlim::verif_passBoundary = nullptr;
+		status << "nodes " << design.getCircuit().getNodes().size() << " partitions " << marked << '\n';
+		// shuffled variants (node order permuted) go through the same export + recorder path so that the traces are measured the same
+		// way; their emitted text may legitimately be reordered and is not compared (directory name differs from "export")
+		fs::path ex = dir / (shuffles ? "export_not_compared" : "export");
 		fs::create_directories(ex);
 		sim::ReferenceSimulator sim(false);
 		sim.compileProgram(design.getCircuit());
@@ -199,6 +206,9 @@ static void runVariant(const CaseSpec &s, const fs::path &dir, unsigned shuffles
 		{
 			vhdl::VHDLExport vhdl(ex / "design.vhd", true);
 			if (s.perPartition) vhdl.outputMode(vhdl::OutputMode::FILE_PER_PARTITION);
+			if (s.tool == 1) vhdl.targetSynthesisTool(new GHDL());
+			else if (s.tool == 2) vhdl.targetSynthesisTool(new IntelQuartus());
+			else if (s.tool == 3) vhdl.targetSynthesisTool(new XilinxVivado());
 			vhdl.writeProjectFile("projectFile.txt");
 			vhdl.writeStandAloneProjectFile("standAloneProjectFile.txt");
 			vhdl.writeConstraintsFile("constraints.txt");
@@ -330,10 +340,10 @@ static std::string oneLine(std::string s) { for (auto &c : s) if (c == '\n' || c
 
 // first difference between two snapshots (restricted to trace files if tracesOnly); returns false if equal
 static bool firstDiff(const Snapshot &a, const Snapshot &b, bool tracesOnly, std::ostream &o, const std::string &an, const std::string &bn) {
-	auto relevant = [&](const std::string &f) { return f != "alloc.txt" && (!tracesOnly || f.rfind("trace_", 0) == 0); };
+	auto relevant = [&](const std::string &f) { return f != "alloc.txt" && (!tracesOnly || f.rfind("trace_", 0) == 0 || f == "status.txt"); };
 	std::vector<std::string> la, lb;
-	for (auto &p : a.files) if (relevant(p.first)) la.push_back(p.first);
-	for (auto &p : b.files) if (relevant(p.first)) lb.push_back(p.first);
+	for (auto &p : a.files) if (relevant(p.first) && (!tracesOnly || b.files.count(p.first))) la.push_back(p.first);
+	for (auto &p : b.files) if (relevant(p.first) && (!tracesOnly || a.files.count(p.first))) lb.push_back(p.first);
 	if (la != lb) {
 		std::string onlyA, onlyB;
 		for (auto &f : la) if (!std::binary_search(lb.begin(), lb.end(), f)) onlyA += f + ",";
@@ -405,7 +415,7 @@ static int designStream(uint64_t seed, uint64_t ncases, uint64_t nsteps, unsigne
 				for (auto &p : sn.files) {
 					if (p.first == "alloc.txt") continue;
 					if (p.first.rfind("trace_", 0) == 0) { tr = fnv(fnv(tr, p.first), p.second); continue; }
-					if (shuffle) continue;
+					if (shuffle && p.first != "status.txt") continue;
 					dg = fnv(fnv(dg, p.first), p.second); nf++;
 				}
 				std::string name = "L" + std::to_string(l) + "/" + v;
